@@ -78,3 +78,8 @@ add("C13", "exploration",
     "Held on the executions explored: with up to 32 clients whose requests overlapped inside handlers, every handler, filter and middleware saw exactly its own request's context-function values (second function after the first), session, server handle and notification sender; every list response equalled the reference filter's view for its caller (Streamable stateful / stateless, JSON / SSE; legacy SSE).",
     "Presence is required only where the library documents it. Stateless sessions are per-request temporaries.",
     "DESIGN.md section 4 C13")
+add("C20", "exploration",
+    "sanitizer: Go race detector (-race build of the harness and of the library) over concurrent server and client workloads in child processes, GOMAXPROCS in {2,4,16}; GORACE log parsed, reports de-duplicated by the pair of innermost library functions; thorough also runs the repository's own e2e suite under -race",
+    "Held on the executions explored: no race-detector report with a library frame over server workloads (serving, registering, notifying, roots requests, sessions and streams coming and going, user code on Session objects) and client workloads (concurrent calls, handler / roots-provider changes, pushed notifications, TerminateSession and Close with calls in flight) on all transports.",
+    "The race detector sees only races on driven paths and occurring interleavings; it says nothing about undriven code.",
+    "DESIGN.md section 4 C20")
